@@ -968,8 +968,9 @@ func doMethRow(c *hx.Ctx, m string, a mval, xs []mval, xsName string, seen map[s
 			sig = got.V.String()
 		}
 		if prev, dup := seen[key]; dup && prev != sig {
+			bb := b
 			c.Fail("method:"+strings.ToLower(m)+":repr-dependent", "the result must not depend on how equal integers are stored",
-				execInput{Kind: "meth", M: m, MA: &a, MB: &b}, sig, prev)
+				execInput{Kind: "meth", M: m, MA: &a, MB: &bb}, sig, prev)
 		}
 		seen[key] = sig
 		c.Nontrivial("m" + key + fmt.Sprint(a.Big, b.Big))
